@@ -1,1 +1,161 @@
-//! (filled in by the C20 work) instrumented global allocator.
+//! Instrumented global allocator for C20 ("secret sanitizer"). Installed only in the `zprobe` binary.
+//!
+//! * TRACK: every block allocated is recorded (the heap blocks a freshly cloned value owns).
+//! * ARMED: every block is scanned for the registered secret byte patterns at `dealloc`, *before* the
+//!   memory goes back to the system allocator; freed blocks are recorded for the conservation check.
+//!
+//! The monitor never allocates and keeps all of its state in statics (single-threaded use).
+
+use std::alloc::{GlobalAlloc, Layout, System};
+use std::sync::atomic::{AtomicUsize, Ordering::SeqCst};
+
+pub struct MonAlloc;
+
+pub const OFF: usize = 0;
+pub const TRACK: usize = 1;
+pub const ARMED: usize = 2;
+
+const MAXB: usize = 512;
+const MAXP: usize = 24;
+const PLEN: usize = 64;
+
+static MODE: AtomicUsize = AtomicUsize::new(OFF);
+static mut TRACKED: [(usize, usize); MAXB] = [(0, 0); MAXB];
+static TRACK_N: AtomicUsize = AtomicUsize::new(0);
+static mut FREED: [(usize, usize); MAXB] = [(0, 0); MAXB];
+static FREED_N: AtomicUsize = AtomicUsize::new(0);
+static mut PATTERNS: [[u8; PLEN]; MAXP] = [[0; PLEN]; MAXP];
+static mut PAT_LEN: [usize; MAXP] = [0; MAXP];
+static PAT_N: AtomicUsize = AtomicUsize::new(0);
+static HITS: AtomicUsize = AtomicUsize::new(0);
+static HIT_PATTERN: AtomicUsize = AtomicUsize::new(usize::MAX);
+static HIT_BLOCK_SIZE: AtomicUsize = AtomicUsize::new(0);
+static SCANNED_BLOCKS: AtomicUsize = AtomicUsize::new(0);
+static SCANNED_BYTES: AtomicUsize = AtomicUsize::new(0);
+
+#[allow(static_mut_refs)]
+unsafe impl GlobalAlloc for MonAlloc {
+    unsafe fn alloc(&self, l: Layout) -> *mut u8 {
+        let p = unsafe { System.alloc(l) };
+        if MODE.load(SeqCst) == TRACK && !p.is_null() {
+            let n = TRACK_N.load(SeqCst);
+            if n < MAXB {
+                unsafe { TRACKED[n] = (p as usize, l.size()) };
+                TRACK_N.store(n + 1, SeqCst);
+            }
+        }
+        p
+    }
+    unsafe fn dealloc(&self, p: *mut u8, l: Layout) {
+        if MODE.load(SeqCst) == ARMED {
+            unsafe { scan_raw(p, l.size()) };
+            let n = FREED_N.load(SeqCst);
+            if n < MAXB {
+                unsafe { FREED[n] = (p as usize, l.size()) };
+                FREED_N.store(n + 1, SeqCst);
+            }
+        }
+        unsafe { System.dealloc(p, l) }
+    }
+    // realloc: the trait's default (alloc + copy + dealloc) goes through the two hooks above
+}
+
+/// scan `len` bytes at `p` for every registered pattern; returns number of hits
+#[allow(static_mut_refs)]
+pub unsafe fn scan_raw(p: *const u8, len: usize) -> usize {
+    SCANNED_BLOCKS.fetch_add(1, SeqCst);
+    SCANNED_BYTES.fetch_add(len, SeqCst);
+    let np = PAT_N.load(SeqCst);
+    let mut hits = 0;
+    for k in 0..np {
+        let pl = unsafe { PAT_LEN[k] };
+        if pl == 0 || pl > len {
+            continue;
+        }
+        let mut i = 0;
+        while i + pl <= len {
+            let mut eq = true;
+            let mut j = 0;
+            while j < pl {
+                let b = unsafe { core::ptr::read_volatile(p.add(i + j)) };
+                if b != unsafe { PATTERNS[k][j] } {
+                    eq = false;
+                    break;
+                }
+                j += 1;
+            }
+            if eq {
+                hits += 1;
+                HITS.fetch_add(1, SeqCst);
+                HIT_PATTERN.store(k, SeqCst);
+                HIT_BLOCK_SIZE.store(len, SeqCst);
+                break;
+            }
+            i += 1;
+        }
+    }
+    hits
+}
+
+pub fn set_mode(m: usize) {
+    MODE.store(m, SeqCst);
+}
+pub fn reset_tracking() {
+    TRACK_N.store(0, SeqCst);
+    FREED_N.store(0, SeqCst);
+}
+pub fn reset_hits() {
+    HITS.store(0, SeqCst);
+    HIT_PATTERN.store(usize::MAX, SeqCst);
+}
+pub fn hits() -> usize {
+    HITS.load(SeqCst)
+}
+pub fn hit_info() -> (usize, usize) {
+    (HIT_PATTERN.load(SeqCst), HIT_BLOCK_SIZE.load(SeqCst))
+}
+pub fn scanned() -> (usize, usize) {
+    (SCANNED_BLOCKS.load(SeqCst), SCANNED_BYTES.load(SeqCst))
+}
+#[allow(static_mut_refs)]
+pub fn clear_patterns() {
+    PAT_N.store(0, SeqCst);
+    unsafe {
+        for k in 0..MAXP {
+            PAT_LEN[k] = 0;
+        }
+    }
+}
+/// register a secret byte pattern (ignored when it is too uniform to be meaningful)
+#[allow(static_mut_refs)]
+pub fn add_pattern(b: &[u8]) -> bool {
+    let distinct = {
+        let mut seen = [false; 256];
+        let mut n = 0;
+        for x in b {
+            if !seen[*x as usize] {
+                seen[*x as usize] = true;
+                n += 1;
+            }
+        }
+        n
+    };
+    let n = PAT_N.load(SeqCst);
+    if b.len() < 16 || b.len() > PLEN || distinct < 8 || n >= MAXP {
+        return false;
+    }
+    unsafe {
+        PATTERNS[n][..b.len()].copy_from_slice(b);
+        PAT_LEN[n] = b.len();
+    }
+    PAT_N.store(n + 1, SeqCst);
+    true
+}
+#[allow(static_mut_refs)]
+pub fn tracked() -> ([(usize, usize); MAXB], usize) {
+    unsafe { (TRACKED, TRACK_N.load(SeqCst)) }
+}
+#[allow(static_mut_refs)]
+pub fn freed() -> ([(usize, usize); MAXB], usize) {
+    unsafe { (FREED, FREED_N.load(SeqCst)) }
+}
